@@ -1,13 +1,104 @@
 /-
-  C02 — decoding is total. (theorems are being added; see DESIGN.md §7 C02)
+  C02 — decoding is total: arbitrary bytes give a value or an error, never a panic.
+
+  In the model every partial Rust operation on a decode path (index, slice, `usize` subtraction,
+  `unwrap`, unbounded loop) is an explicit `.panic` / `.outOfFuel` outcome, so these theorems say that
+  the guards in the code make each of them unreachable — for every schema and every byte string.
 -/
-import ZvtVerif.Derive
-import ZvtVerif.Properties.C16
+import ZvtVerif.Proofs.NoPanic
+import ZvtVerif.Generated
+import ZvtVerif.Transport
+import ZvtVerif.Properties.C17
 namespace Zvt.C02
 open Zvt
 
-/-- every length-prefix parser is total (no panic on any input). -/
+def structTyped (s : StructDef) : Bool := fieldsTyped s.fields
+
+/-- every length-prefix parser is total. -/
 theorem len_de_no_panic (L : LenKind) (b : Bytes) (hL : ∀ s, L ≠ .unknown s) : (L.de b).isPanic = false :=
   C16.de_no_panic L b hL
+
+/-- **Every packet decoder is total** — for every struct definition whose (length, encoding, type) triples
+are ones the builder implements, and EVERY byte string: the result is a value or a `ZVTError`, never a
+panic, never fuel exhaustion (the tag loop, the `Vec` loop and the date-time loop all terminate), and the
+remainder handed back is never longer than the input. -/
+theorem decode_total (s : StructDef) (h : structTyped s = true) (b : Bytes) : NP (decodeCmd s b) b := by
+  unfold decodeCmd
+  cases hc : s.ctrl with
+  | none =>
+    simp only
+    unfold decodePlain
+    exact Ty.de_np (.struct s.fields) .empty .dflt none b (by simp [Ty.typed, LenKind.known]; exact h)
+  | some c =>
+    simp only
+    exact deserTagged_np' tagDecBE (fun x => intDecode_np true 2 x) .adpu (by intro s h; cases h) _
+      (fun x => decStructWith_np _ _ (fun y => decPos_np s.fields y h) (fun t y idx r ha => armFind_np s.fields t 0 y idx r h ha) s.fields x)
+      (some (ctrlTag c)) b
+
+/-- every field decoder, at any nesting depth. -/
+theorem field_decode_total (t : Ty) (L : LenKind) (E : Enc) (tag : Option Nat) (b : Bytes) (h : Ty.typed t L E = true) :
+    NP (Ty.de t L E tag b) b := Ty.de_np t L E tag b h
+
+def errPanics {α : Type} (r : Res α) : Bool :=
+  match r with
+  | .error er => er.isPanic
+  | .ok _ => false
+
+theorem parseVariants_total (c0 c1 : Nat) (b : Bytes) :
+    ∀ (vs : List (String × StructDef)) (i : Nat), vs.all (fun v => structTyped v.2) = true →
+      errPanics (parseVariants vs i c0 c1 b) = false := by
+  intro vs
+  induction vs with
+  | nil => intro i _; rfl
+  | cons hd tl ih =>
+    intro i h
+    obtain ⟨n, s⟩ := hd
+    simp only [List.all_cons, Bool.and_eq_true] at h
+    simp only [parseVariants]
+    by_cases hc : s.ctrl = some (c0, c1)
+    · simp only [hc, if_true]
+      have := decode_total s h.1 b
+      cases hd : decodeCmd s b with
+      | error er => simp only [errPanics]; exact NP_err_of this hd
+      | ok p => rfl
+    · simp only [hc, if_false]
+      exact ih (i + 1) h.2
+
+/-- **Every reply parser is total.** -/
+theorem parse_total (e : EnumDef) (h : e.variants.all (fun v => structTyped v.2) = true) (b : Bytes) :
+    errPanics (parseEnum e b) = false := by
+  unfold parseEnum
+  match b with
+  | [] => rfl
+  | [_] => rfl
+  | c0 :: c1 :: rest => exact parseVariants_total _ _ _ e.variants 0 h
+
+/-- all 55 shipped packet / container types and all 17 reply enums satisfy the hypothesis (re-checked by
+the kernel against the table translated from the source on this run). -/
+theorem shipped_typed : Generated.shipped.all structTyped = true := by decide +kernel
+
+theorem shipped_enums_typed : Generated.enums.all (fun e => e.variants.all (fun v => structTyped v.2)) = true := by decide +kernel
+
+/-- Corollary for the code as shipped: no decoder, no reply parser can panic or loop on any input. -/
+theorem shipped_decode_total (s : StructDef) (hs : s ∈ Generated.shipped) (b : Bytes) : NP (decodeCmd s b) b :=
+  decode_total s (List.all_eq_true.mp shipped_typed s hs) b
+
+/-- A number that does not fit its field is an error, not a wrapped value (so debug and release builds
+decode identically): the BCD decoder returns the exact digit value iff it fits, `IncompleteData` otherwise. -/
+theorem bcd_overflow_is_error (w : Nat) (ds : Bytes) :
+    bcdDec w ds = if bcdValFrom 0 ds < 256 ^ w then .ok (bcdValFrom 0 ds, []) else .error .incomplete :=
+  C17.bcd_overflow_is_error w ds
+
+/-- the transport reads frames with total functions only (`readFrame` has no failure but EOF). -/
+theorem readFrame_total (s : Bytes) : (∃ p r, readFrame s = .packet p r) ∨ (∃ n, readFrame s = .eof n) := by
+  cases h : readFrame s with
+  | packet p r => left; exact ⟨p, r, rfl⟩
+  | eof n => right; exact ⟨n, rfl⟩
+
+/-- the repaired defects as regression theorems: a truncated `82` length prefix and the month arithmetic. -/
+example : LenKind.tlv.de [0x82, 0x01] = .error .incomplete := by decide
+example : (dtDecode [0x1f, 0x0e, 0x04, 0x20, 0x23, 0x10, 0x05, 0x1f, 0x0f, 0x03, 0x22, 0x56, 0x55]).isOkVal (.dt 20231005 225655) [] = true := by
+  decide +kernel
+example : (dtDecode [0x1f, 0x0e, 0x04, 0x20, 0x23, 0x13, 0x05, 0x1f, 0x0f, 0x03, 0x22, 0x56, 0x55]).isPanic = false := by decide +kernel
 
 end Zvt.C02
